@@ -27,8 +27,13 @@ KNOWN_IDS = ["pow-tower-timeout", "deep-expression-recursionerror", "nonfinite-n
              "short-tuple-assignment-indexerror", "syntaxerror-for-valid-python"]
 
 
-def bucket(cpu_ms: int, outcome: str) -> str:
-    if outcome == "timeout" or cpu_ms > R.LIMIT_S * 1000:
+RSS_GROW_MB = 384         # "terminates promptly" also bounds the memory one transpilation of a small input may claim
+
+
+def bucket(cpu_ms: int, outcome: str, rss_grow_mb: int = 0) -> str:
+    # a transpilation that claims hundreds of megabytes for a few lines of input is not prompt either (the worker's own address
+    # space limit would otherwise turn the blow-up into a quiet MemoryError that the code swallows): same bucket as the time limit
+    if outcome == "timeout" or cpu_ms > R.LIMIT_S * 1000 or rss_grow_mb > RSS_GROW_MB:
         return "gt2s"
     return "le100ms" if cpu_ms <= 100 else "le2s"
 
@@ -39,7 +44,7 @@ def to_trace(job: dict, rec: dict) -> dict:
             "inp": {"python": py, "tags": R.tags_of(job["src"], py)},
             "audit": [{"ev": a[0], "grp": a[0].split(".")[0], "key": a[1], "kind": a[2], "n": a[3]} for a in rec["audit"]],
             "fin": {"canary": bool(rec["canary"]), "snap": bool(rec["snap_same"]), "env": bool(rec["env_same"])},
-            "out": {"class": rec["outcome"], "cls": rec["cls"], "bucket": bucket(rec["cpu_ms"], rec["outcome"])}}
+            "out": {"class": rec["outcome"], "cls": rec["cls"], "bucket": bucket(rec["cpu_ms"], rec["outcome"], rec.get("rss_grow_mb", 0))}}
 
 
 def model_check(run) -> None:
@@ -149,7 +154,7 @@ def report(run, jobs, recs, traces, sv, pv) -> None:
                            "spec": "Sandbox", "verdict": s, "record": r})
         if not p["ok"]:
             run.violation(f"{j['id']}: outcome outside the specification ({p['clause']}): {r['outcome']} {r['cls']} {r['msg'][:80]} "
-                          f"at {r.get('site', '')} cpu={r['cpu_ms']}ms tags={t['inp']['tags']}",
+                          f"at {r.get('site', '')} cpu={r['cpu_ms']}ms rss+={r.get('rss_grow_mb', 0)}MB tags={t['inp']['tags']}",
                           {"id": j["id"], "src": j["src"], "spec": "Pipeline", "verdict": p, "record": r, "inp": t["inp"]})
     for k, ids in sorted(hits.items()):
         run.violation(f"{len(ids)} inputs, e.g. {ids[0]}", {}, finding=k)
